@@ -309,7 +309,12 @@ func c18GenMonReal(r *rand.Rand, id int) c18Case {
 		}
 		q := pool[r.Intn(len(pool))]
 		entry := r.Intn(2)
-		key := fmt.Sprint(entry) + "|" + strings.ToLower(strings.TrimSpace(q))
+		key := fmt.Sprint(entry) + "|" + strings.Map(func(c rune) rune { // the cache files a query under its ASCII-lower-cased text, exactly
+			if c >= 'A' && c <= 'Z' {
+				return c + 32
+			}
+			return c
+		}, q)
 		var res []database.SearchResult
 		if entry == 0 {
 			res = mdb.SearchWithMonitoring(q, 5)
